@@ -34,6 +34,7 @@ import (
 )
 
 var run *common.Run
+var knownSeen int
 
 const (
 	mtDockerManifest = "application/vnd.docker.distribution.manifest.v2+json"
@@ -775,7 +776,7 @@ func execHistory(id string, c *Case) (nreq int) {
 			continue
 		}
 		if hit != nil {
-			run.Count("corrupt:" + c.Cor.Field)
+			run.Count("corrupt:" + c.Cor.Field + ":" + hit.Q.M + ":" + hit.Q.EP.Kind)
 			if mustFail(c, o, *hit) && res.Err == nil {
 				run.OracleFail(id, "corruption-accepted", fmt.Sprintf("op %d (%s): response to %s corrupted in %s, call returned %s", i, o.Kind,
 					fr.ShowReq(hit.Q), c.Cor.Field, res.Str), replayOf(line))
@@ -800,6 +801,11 @@ func execHistory(id string, c *Case) (nreq int) {
 				(o.Kind == "resolve" || (o.Kind == "fetchref" && !c.Prof.CLen)) &&
 				res.Err != nil && strings.Contains(res.Err.Error(), "missing required header") {
 				sig = "head-tag-no-digest-header"
+				run.Count("known:" + sig)
+				knownSeen++
+				if knownSeen > 25 {
+					continue // reported often enough in this run; counted above
+				}
 			}
 			run.OracleFail(id, sig, fmt.Sprintf("op %d (%s): expected %s, got %s (%v)", i, o.Kind, exp, res.Str, res.Err), replayOf(line))
 		}
@@ -1239,12 +1245,12 @@ func main() {
 		return
 	}
 	r := run.Rand
-	nh := run.Scale(2500, 40000)
+	nh := run.Scale(2500, 16000)
 	for i := 0; i < nh; i++ {
 		c := genCase(r.Fork(), 6+r.Intn(run.Scale(16, 30)))
 		n := execHistory(run.NewID(), c)
 		// the same history with one field of one response corrupted
-		ncor := run.Scale(2, 4)
+		ncor := run.Scale(2, 3)
 		for j := 0; j < ncor && n > 0; j++ {
 			cc := *c
 			f := common.Pick(r, corruptFields)
